@@ -26,6 +26,7 @@ type Eval struct {
 	pos   token.Pos         // scope position for local lookup
 	pkg   *types.Package    // package for scope lookups
 	inOld bool
+	loop  *loopInfo
 	shift map[string]string // bound variable -> slice offset chosen for re-indexing
 	depth int
 	errs  []string
@@ -86,6 +87,7 @@ func (f *FuncVC) invEval(st *State, li *loopInfo) *Eval {
 		ev.pos = rs.Body.Lbrace + 1
 	}
 	ev.oldEnv = f.paramEntry
+	ev.loop = li
 	return ev
 }
 
@@ -210,6 +212,14 @@ func (ev *Eval) ident(x *ast.Ident) *Val {
 		return v
 	}
 	if ev.locals {
+		if (x.Name == "rangeindex" || x.Name == "iter") && ev.loop != nil {
+			if v := ev.rangeIndex(); v != nil {
+				if x.Name == "iter" {
+					return vInt(arith("+", v.T, "1"), nil)
+				}
+				return v
+			}
+		}
 		if v := ev.localVar(x.Name); v != nil {
 			return v
 		}
@@ -257,6 +267,22 @@ func (ev *Eval) object(obj types.Object) *Val {
 	}
 	ev.fail("unsupported object %s", obj)
 	return vInt("0", nil)
+}
+
+// rangeIndex returns the hidden index variable of a range-over-slice loop
+// (-1 before the first iteration; "iter" = rangeindex+1 = completed iterations).
+func (ev *Eval) rangeIndex() *Val {
+	for _, ins := range ev.loop.header.Instrs {
+		if u, ok := ins.(*ssa.UnOp); ok && u.Op == token.MUL {
+			if a, ok := u.X.(*ssa.Alloc); ok && a.Comment == "rangeindex" {
+				if c, ok := ev.st.cells[a]; ok {
+					return c
+				}
+			}
+		}
+	}
+	ev.fail("loop has no range index")
+	return nil
 }
 
 // localVar resolves a local variable name at ev.pos to its current value.
